@@ -47,6 +47,17 @@ thread_local! {
     static CONST_OVERRIDE: std::cell::RefCell<Option<(Vec<i64>, bool)>> = std::cell::RefCell::new(None);
 }
 
+thread_local! {
+    /// When set, the k-th call of `B::sc` in a template uses rank `ranks[k]` (others keep theirs):
+    /// isolates ONE pattern constant of higher rank (e.g. only the chain-internal `0.5` of Gelu).
+    static SC_RANKS: std::cell::RefCell<Option<(usize, usize, usize)>> = std::cell::RefCell::new(None);
+}
+
+/// `Some((k, rank))`: the k-th `sc` constant of the next template gets `rank`.
+pub fn set_sc_rank(o: Option<(usize, usize)>) {
+    SC_RANKS.with(|c| *c.borrow_mut() = o.map(|(k, r)| (k, r, 0)));
+}
+
 pub fn set_const_override(o: Option<(Vec<i64>, bool)>) {
     CONST_OVERRIDE.with(|c| *c.borrow_mut() = o);
 }
@@ -103,6 +114,20 @@ impl B {
     }
     /// single-element f32 constant of rank `rank`
     pub fn sc(&mut self, rank: usize, v: f32) -> String {
+        let hit = SC_RANKS.with(|c| {
+            let mut b = c.borrow_mut();
+            match b.as_mut() {
+                Some((k, r, n)) => {
+                    let h = if *n == *k { Some(*r) } else { None };
+                    *n += 1;
+                    h
+                }
+                None => None,
+            }
+        });
+        if let Some(r) = hit {
+            return self.cf(&vec![1i64; r], &[v]);
+        }
         if let Some((dims, uniform)) = const_override() {
             let n: i64 = dims.iter().product();
             let vals: Vec<f32> = (0..n).map(|i| if uniform || i == 0 { v } else { v + 0.5 * i as f32 }).collect();
@@ -159,6 +184,10 @@ impl B {
         self.g.outputs.push(ValueInfo::new(name, dtype, None));
     }
     pub fn fin(self, name: String, family: &'static str) -> Tm {
+        let name = match SC_RANKS.with(|c| *c.borrow()) {
+            Some((k, r, _)) => format!("{name}/only-c{k}-rank{r}"),
+            None => name,
+        };
         let name = match const_override() {
             Some((dims, uniform)) => format!("{name}/multiconst{dims:?}{}", if uniform { "uniform" } else { "varied" }).replace(' ', ""),
             None => name,
@@ -1115,6 +1144,42 @@ pub fn all_templates(rng: &mut Rng, thorough: bool) -> Vec<Tm> {
         }
     }
     set_const_override(None);
+    // exactly ONE pattern constant of higher rank (chain-internal constants of Gelu / ApproxGelu / RMSNorm ...)
+    for r in [1usize, 2, 3] {
+        for k in 0..3 {
+            for form in 0..3 {
+                for mulform in [false, true] {
+                    for swap in [false, true] {
+                        set_sc_rank(Some((k, r)));
+                        v.push(t_gelu(&[3], form, mulform, 0, swap));
+                    }
+                }
+            }
+        }
+        for k in 0..5 {
+            for swap in [false, true] {
+                set_sc_rank(Some((k, r)));
+                v.push(t_approx_gelu(&[3], 0, swap));
+            }
+        }
+        for k in 0..2 {
+            // k = 0: the Pow exponent 2.0, k = 1: epsilon
+            set_sc_rank(Some((k, r)));
+            v.push(t_layernorm(&[2, 4], -1, -1, 1, true, &[4], true, 0, true));
+            set_sc_rank(Some((k, r)));
+            v.push(t_layernorm(&[2, 4], -1, -1, 1, false, &[4], false, 0, true));
+            set_sc_rank(Some((k, r)));
+            v.push(t_rmsnorm(&[2, 4], -1, 1, true, &[4], 0));
+        }
+        for k in 0..3 {
+            set_sc_rank(Some((k, r)));
+            v.push(t_matmul_scale(&[2, 4], &[4, 3], sc(false, 0.5, 0, true), sc(false, 0.25, 0, false), sc(true, 2.0, 0, false)));
+        }
+    }
+    set_sc_rank(None);
+    // epsilon of rank 3 with a valid scale
+    v.push(t_layernorm(&[2, 4], -1, -1, 1, true, &[4], true, 3, true));
+    v.push(t_rmsnorm(&[2, 4], -1, 1, true, &[4], 3));
     // guard wrappers: every f32 intermediate of a representative of each family
     let reps: Vec<Tm> = vec![
         t_identity(0, &[3], 0, false, true, f, None, true),
